@@ -10,6 +10,13 @@ import (
 // (only used by the C04 dereference check; never for comparisons).
 type Opt struct {
 	Deep bool
+	// CapIndep restricts the walk to what must not depend on the capacity of
+	// caller arrays (C13): stored elements only up to the given limits, and no
+	// VNo()/PNo()/HNo()/More() facts.
+	CapIndep     bool
+	HdrLimit     int
+	ContactLimit int
+	ParamLimit   int
 }
 
 func (v *Vec) idx(name string, i int) {
@@ -54,6 +61,9 @@ func HdrLst(v *Vec, hl *sipsp.HdrLst, o Opt) {
 	}
 	if o.Deep && n < len(hl.Hdrs) {
 		n++
+	}
+	if o.CapIndep && n > o.HdrLimit {
+		n = o.HdrLimit
 	}
 	if n < 0 {
 		n = 0
@@ -112,13 +122,18 @@ func Contacts(v *Vec, c *sipsp.PContacts, o Opt) {
 	v.I("MaxExpires", int64(c.MaxExpires))
 	v.I("MinExpires", int64(c.MinExpires))
 	v.PF("LastHVal", c.LastHVal)
-	v.I("VNo()", int64(c.VNo()))
-	v.B("More()", c.More())
+	if !o.CapIndep {
+		v.I("VNo()", int64(c.VNo()))
+		v.B("More()", c.More())
+	}
 	v.B("Empty()", c.Empty())
 	v.B("Parsed()", c.Parsed())
 	n := c.VNo()
 	if o.Deep && n < len(c.Vals) {
 		n++
+	}
+	if o.CapIndep && n > o.ContactLimit {
+		n = o.ContactLimit
 	}
 	for i := 0; i < n; i++ {
 		v.idx("Vals", i)
@@ -128,7 +143,7 @@ func Contacts(v *Vec, c *sipsp.PContacts, o Opt) {
 	if !o.Deep {
 		// accessor: first and last value must stay retrievable
 		for _, i := range [...]int{0, c.N - 1, c.N} {
-			if i < 0 {
+			if i < 0 || (o.CapIndep && i == c.N) {
 				continue
 			}
 			v.idx("GetContact", i)
@@ -247,11 +262,15 @@ func Msg(v *Vec, m *sipsp.PSIPMsg, o MsgOpt) {
 		v.Off("Body.Offs", int(m.Body.Offs), m.Body.Len == 0)
 	} else {
 		v.PF("Body", m.Body)
-		v.Bytes("Buf", m.Buf, v.Shift)
-		if m.Buf != nil && m.RawMsg != nil {
+		// Buf is what the parser saved only once it set RawMsg (message
+		// complete, or the no-Content-Length verdict); before that it is
+		// whatever the caller handed to Init() / what Reset() deliberately kept
+		if m.RawMsg != nil {
+			v.B("RawMsg.nil", false)
+			v.Bytes("Buf", m.Buf, v.Shift)
 			v.Off("RawMsg.start", cap(m.Buf)-cap(m.RawMsg), false)
 		} else {
-			v.B("RawMsg.nil", m.RawMsg == nil)
+			v.B("RawMsg.nil", true)
 		}
 		v.Bytes("RawMsg", m.RawMsg, 0)
 	}
@@ -274,12 +293,17 @@ func URIParams(v *Vec, l *sipsp.URIParamsLst, o Opt) {
 	v.Push("URIParams.")
 	v.I("N", int64(l.N))
 	v.I("Types", int64(l.Types))
-	v.I("PNo()", int64(l.PNo()))
-	v.B("More()", l.More())
+	if !o.CapIndep {
+		v.I("PNo()", int64(l.PNo()))
+		v.B("More()", l.More())
+	}
 	v.B("Empty()", l.Empty())
 	n := l.PNo()
 	if o.Deep && n < len(l.Params) {
 		n++
+	}
+	if o.CapIndep && n > o.ParamLimit {
+		n = o.ParamLimit
 	}
 	for i := 0; i < n; i++ {
 		v.idx("Params", i)
@@ -294,12 +318,17 @@ func URIParams(v *Vec, l *sipsp.URIParamsLst, o Opt) {
 func URIHdrs(v *Vec, l *sipsp.URIHdrsLst, o Opt) {
 	v.Push("URIHdrs.")
 	v.I("N", int64(l.N))
-	v.I("HNo()", int64(l.HNo()))
-	v.B("More()", l.More())
+	if !o.CapIndep {
+		v.I("HNo()", int64(l.HNo()))
+		v.B("More()", l.More())
+	}
 	v.B("Empty()", l.Empty())
 	n := l.HNo()
 	if o.Deep && n < len(l.Hdrs) {
 		n++
+	}
+	if o.CapIndep && n > o.ParamLimit {
+		n = o.ParamLimit
 	}
 	for i := 0; i < n; i++ {
 		v.idx("Hdrs", i)
